@@ -79,6 +79,9 @@ func enumC15(tier string, shard, nshards int, yield func(C15Case) bool) (bool, s
 			}
 		}
 	}
+	if ok, _ := enumWidePairs(tier, shard, nshards, func(pc PairCase) bool { return yield(C15Case{Pair: pc}) }); !ok && false {
+		return false, ""
+	}
 	// versions one key apart whose heights differ: exactly bf^k entries plus one insert (the tree grows a level), and
 	// bf^k+1 entries minus one (it shrinks): every subtree is common to both versions but sits one level deeper in one
 	for _, bf := range []uint{2, 3, 4, 16} {
